@@ -90,7 +90,7 @@ def saf_clause(cl, rng, n, replay):
                 cl.fail("hvsrpy.data_wrangler._read_saf", f"channels {chans}: components do not hold the samples stored for N / E / V (single precision) with dt = 1/{fs}",
                         signature="saf:samples", chans=chans)
                 return
-            if abs(r.degrees_from_north - want_deg) > 1e-9:
+            if not (abs(r.degrees_from_north - want_deg) <= 1e-9):
                 cl.fail("hvsrpy.data_wrangler._read_saf", f"orientation {r.degrees_from_north}, expected {want_deg} (NORTH_ROT={north_rot}, CH ids {chans}, explicit={explicit})",
                         signature="saf:orientation", north_rot=north_rot, explicit=explicit, chans=chans)
                 return
@@ -128,7 +128,7 @@ def minishark_clause(cl, rng, n, replay):
             return
         want = (f32(data).astype(np.float32) / np.float32(gain)) / np.float32(conv)
         ok = all(np.allclose(getattr(r, c).amplitude, want[:, k].astype(np.float64), rtol=3e-7, atol=0) for k, c in enumerate(("vt", "ns", "ew")))
-        if not ok or r.ns.dt_in_seconds != 1 / fs or abs(r.degrees_from_north - (0.0 if explicit is None else explicit)) > 1e-12:
+        if not ok or r.ns.dt_in_seconds != 1 / fs or not (abs(r.degrees_from_north - (0.0 if explicit is None else explicit)) <= 1e-12):
             cl.fail("hvsrpy.data_wrangler._read_minishark", "columns are not (vertical, north, east) / gain / conversion to single precision, or dt / orientation wrong",
                     signature="mshark:samples", gain=gain, conversion=conv)
             return
@@ -227,7 +227,7 @@ def peer_clause(cl, rng, n, replay):
                 return
             if explicit is not None:
                 want_deg = explicit
-            if want_deg is not None and abs(r.degrees_from_north - want_deg) > 1e-9:
+            if want_deg is not None and not (abs(r.degrees_from_north - want_deg) <= 1e-9):
                 cl.fail("hvsrpy.data_wrangler._read_peer", f"orientation {r.degrees_from_north}, expected {want_deg} for layout {lay}", signature="peer:orientation", layout=lay)
                 return
     finally:
@@ -350,7 +350,7 @@ def read_args_clause(cl, rng, n, replay):
                 for k, r in enumerate(out):
                     mine = deg if (deg is None or not isinstance(deg, (list, tuple, np.ndarray))) else deg[k]
                     want = (10.0 * (k + 1)) if mine is None else float(mine)
-                    if abs(r.degrees_from_north - want) > 1e-12 or r.ns.n_samples != 5 + k:
+                    if not (abs(r.degrees_from_north - want) <= 1e-12) or r.ns.n_samples != 5 + k:       # (a NaN orientation fails the comparison)
                         cl.fail("hvsrpy.data_wrangler.read", f"recording {k} got degrees_from_north={r.degrees_from_north}, expected {want} (argument {deg!r}, kwargs {kw!r})",
                                 signature="read:degrees", argument=repr(deg), kwargs=repr(kw))
                         return
